@@ -148,7 +148,8 @@ structure Msg where
 
 /-- one log file as the sink sees it -/
 structure FileRec where
-  initial : Int             -- bytes already in the file when this sink opened it (0 for files it created)
+  initial : Int             -- bytes of the file not written by this sink: present when it opened the file, or
+                            -- appended since by another writer (0 for files it created and owns alone)
   msgs : List (Nat × Int)   -- (index, bytes appended) of the messages this sink wrote into it
   deriving Repr, DecidableEq
 
@@ -204,14 +205,21 @@ def Sink.init (ls : List Leaf) (ctime size : Int) : Sink :=
 the rotation functions are new, the files and what the file system remembers stay -/
 def Sink.restart (ls : List Leaf) (s : Sink) : Sink := { s with states := initStates ls }
 
+/-- another writer (a second handler on the same path, another process with an O_APPEND descriptor)
+appends `n` bytes to the current file behind the sink's back: they count as bytes of the file that
+this sink did not write -/
+def Sink.foreign (s : Sink) (n : Int) : Sink := { s with cur := { s.cur with initial := s.cur.initial + n } }
+
 /-- one step of a sink history -/
 inductive SinkOp where
   | msg (m : Msg)
   | restart
+  | foreign (n : Int)
 
 def Sink.step (ls : List Leaf) (s : Sink) : SinkOp → Sink
   | .msg m => Sink.write ls s m
   | .restart => Sink.restart ls s
+  | .foreign n => Sink.foreign s n
 
 def Sink.run (ls : List Leaf) (s : Sink) (ms : List Msg) : Sink := ms.foldl (Sink.write ls) s
 
